@@ -34,8 +34,38 @@ type Flow struct {
 	Methods  []int  `json:"methods"`
 	User     S      `json:"user"`
 	Pass     S      `json:"pass"`
-	Scenario string `json:"scenario"` // tcp | udp-timeout-switch | tcp-in-setup-answer | redirect | redirect-after-auth | pause-replay | keepalive | stale-nonce
+	Scenario string `json:"scenario"` // tcp | udp-timeout-switch | tcp-in-setup-answer | redirect | redirect-after-auth | pause-replay | keepalive | stale-nonce | record
 	Path     string `json:"path"`
+	// FirstAuth: the first method the server authenticates (earlier ones are answered without asking):
+	// "" (everything but a session-less OPTIONS) | OPTIONS | DESCRIBE | ANNOUNCE | SETUP | PLAY | RECORD | PAUSE
+	FirstAuth string `json:"first_auth,omitempty"`
+	// Base: how the DESCRIBE answer lets the client derive the base URL of SETUP:
+	// "" = cb-abs-slash | cb-abs-noslash | cb-rel | cb-none | sess-abs | sess-star
+	Base string `json:"base,omitempty"`
+	// MediaControl: the media-level a=control: "" = rel | abs | none
+	MediaControl string `json:"media_control,omitempty"`
+}
+
+var flowRank = map[string]int{"OPTIONS": 0, "DESCRIBE": 1, "ANNOUNCE": 1, "SETUP": 2, "PLAY": 3, "RECORD": 3, "GET_PARAMETER": 3, "PAUSE": 4}
+
+// flowSDP: the session description of the DESCRIBE answer with the requested control attributes.
+func flowSDP(fl *Flow, reqURL string) []byte {
+	var sb strings.Builder
+	sb.WriteString("v=0\r\no=- 0 0 IN IP4 127.0.0.1\r\ns=Stream\r\nc=IN IP4 0.0.0.0\r\nt=0 0\r\n")
+	switch fl.Base {
+	case "sess-abs":
+		sb.WriteString("a=control:" + reqURL + "/\r\n")
+	case "sess-star":
+		sb.WriteString("a=control:*\r\n")
+	}
+	sb.WriteString("m=video 0 RTP/AVP 96\r\na=rtpmap:96 H264/90000\r\na=fmtp:96 packetization-mode=1\r\n")
+	switch fl.MediaControl {
+	case "", "rel":
+		sb.WriteString("a=control:trackID=0\r\n")
+	case "abs":
+		sb.WriteString("a=control:" + strings.TrimSuffix(reqURL, "/") + "/trackID=0\r\n")
+	}
+	return []byte(sb.String())
 }
 
 type flowReq struct {
@@ -60,6 +90,8 @@ type flowServer struct {
 	scenario string
 	redirect string // Location for DESCRIBE
 	noAuth   bool   // this server does not ask who is there
+	fl       *Flow
+	framesIn int // interleaved RTP frames received from a recording client
 	sdp      []byte
 	udp      [2]*net.UDPConn
 
@@ -77,7 +109,7 @@ func newFlowServer(fl *Flow, scenario string) (*flowServer, error) {
 	if err != nil {
 		return nil, err
 	}
-	fs := &flowServer{ln: ln, methods: fl.Methods, user: string(fl.User), pass: string(fl.Pass), scenario: scenario}
+	fs := &flowServer{ln: ln, methods: fl.Methods, user: string(fl.User), pass: string(fl.Pass), scenario: scenario, fl: fl}
 	d := description.Session{Medias: []*description.Media{{
 		Type:    description.MediaTypeVideo,
 		Formats: []format.Format{&format.H264{PayloadTyp: 96, PacketizationMode: 1}},
@@ -176,7 +208,12 @@ func (fs *flowServer) serve(nc net.Conn, idx int) {
 		}
 		req, isReq := what.(*base.Request)
 		if !isReq {
-			continue // RTCP from the client
+			if fr, isFr := what.(*base.InterleavedFrame); isFr && fr.Channel == 0 {
+				fs.mu.Lock()
+				fs.framesIn++
+				fs.mu.Unlock()
+			}
+			continue // RTP / RTCP from the client
 		}
 		res := &base.Response{StatusCode: base.StatusOK, Header: base.Header{"CSeq": req.Header["CSeq"]}}
 		rec := flowReq{conn: idx, method: string(req.Method), authz: req.Header["Authorization"], nonce: nonce}
@@ -185,6 +222,10 @@ func (fs *flowServer) serve(nc net.Conn, idx int) {
 		}
 		_, rec.session = req.Header["Session"]
 		rec.needed = !fs.noAuth && !(req.Method == base.Options && !rec.session)
+		if fs.fl.FirstAuth != "" && !fs.noAuth {
+			rk, known := flowRank[string(req.Method)]
+			rec.needed = known && rk >= flowRank[fs.fl.FirstAuth]
+		}
 		authOK := true
 		if rec.needed {
 			// mid-session nonce change (scenario stale-nonce): after PLAY was accepted the server moves on
@@ -201,15 +242,22 @@ func (fs *flowServer) serve(nc net.Conn, idx int) {
 		if authOK {
 			switch req.Method {
 			case base.Options:
-				res.Header["Public"] = base.HeaderValue{"DESCRIBE, SETUP, PLAY, PAUSE, GET_PARAMETER, TEARDOWN"}
+				res.Header["Public"] = base.HeaderValue{"DESCRIBE, ANNOUNCE, SETUP, PLAY, RECORD, PAUSE, GET_PARAMETER, TEARDOWN"}
 			case base.Describe:
 				if fs.redirect != "" {
 					res.StatusCode = base.StatusFound
 					res.Header["Location"] = base.HeaderValue{fs.redirect}
 				} else {
 					res.Header["Content-Type"] = base.HeaderValue{"application/sdp"}
-					res.Header["Content-Base"] = base.HeaderValue{req.URL.String() + "/"}
-					res.Body = fs.sdp
+					switch fs.fl.Base {
+					case "", "cb-abs-slash", "sess-star":
+						res.Header["Content-Base"] = base.HeaderValue{req.URL.String() + "/"}
+					case "cb-abs-noslash":
+						res.Header["Content-Base"] = base.HeaderValue{req.URL.String()}
+					case "cb-rel":
+						res.Header["Content-Base"] = base.HeaderValue{req.URL.RequestURI() + "/"}
+					}
+					res.Body = flowSDP(fs.fl, req.URL.String())
 				}
 			case base.Setup:
 				var th headers.Transport
@@ -238,6 +286,9 @@ func (fs *flowServer) serve(nc net.Conn, idx int) {
 				}
 				res.Header["Transport"] = out.Marshal()
 				tcpReady = out.Protocol == headers.TransportProtocolTCP
+			case base.Announce:
+			case base.Record:
+				res.Header["Session"] = base.HeaderValue{fmt.Sprintf("s%d", idx)}
 			case base.Play:
 				res.Header["Session"] = base.HeaderValue{fmt.Sprintf("s%d", idx)}
 				tcpPlay = tcpReady
@@ -336,7 +387,7 @@ func flowExec(fl *Flow) (out *flowResult) {
 		ReadTimeout: 3 * time.Second, WriteTimeout: 3 * time.Second, InitialUDPReadTimeout: 250 * time.Millisecond,
 		OnTransportSwitch: func(error) { swMu.Lock(); switched++; swMu.Unlock() }}
 	if fl.Scenario == "tcp" || fl.Scenario == "pause-replay" || fl.Scenario == "keepalive" || fl.Scenario == "stale-nonce" ||
-		fl.Scenario == "redirect" || fl.Scenario == "redirect-after-auth" {
+		fl.Scenario == "redirect" || fl.Scenario == "redirect-after-auth" || fl.Scenario == "record" {
 		p := gortsplib.ProtocolTCP
 		cl.Protocol = &p
 	}
@@ -367,6 +418,45 @@ func flowExec(fl *Flow) (out *flowResult) {
 			return
 		}
 		defer cl.Close()
+		if fl.Scenario == "record" {
+			medi := &description.Media{Type: description.MediaTypeVideo,
+				Formats: []format.Format{&format.H264{PayloadTyp: 96, PacketizationMode: 1}}}
+			rdesc := &description.Session{Medias: []*description.Media{medi}}
+			_, e := cl.Announce(u, rdesc)
+			if !step("announce", e) {
+				return
+			}
+			if !step("setup", cl.SetupAll(u, rdesc.Medias)) {
+				return
+			}
+			_, e = cl.Record()
+			if !step("record", e) {
+				return
+			}
+			deadline := time.Now().Add(4 * time.Second)
+			var seq uint16
+			for {
+				seq++
+				e = cl.WritePacketRTP(medi, &rtp.Packet{Header: rtp.Header{Version: 2, PayloadType: 96, SequenceNumber: seq, Timestamp: uint32(seq) * 3000},
+					Payload: []byte{5, 1, 2, 3}})
+				if e != nil {
+					step("write", e)
+					return
+				}
+				fs.mu.Lock()
+				n := fs.framesIn
+				fs.mu.Unlock()
+				if n > 0 {
+					step("media", nil)
+					return
+				}
+				if time.Now().After(deadline) {
+					step("media", fmt.Errorf("the server received no media within 4s"))
+					return
+				}
+				time.Sleep(20 * time.Millisecond)
+			}
+		}
 		desc, _, e := cl.Describe(u)
 		if !step("describe", e) {
 			return
@@ -462,6 +552,12 @@ func (r *runner) flowReport(fl *Flow, res *flowResult, name string) {
 
 	// ---------------- property oracle ----------------
 	c.Dist("flow:" + fl.Scenario)
+	if fl.FirstAuth != "" {
+		c.Dist("flow:first-challenge-at=" + fl.FirstAuth)
+	}
+	if fl.Base != "" || fl.MediaControl != "" {
+		c.Dist("flow:base=" + fl.Base + ",control=" + fl.MediaControl)
+	}
 	var trace []string
 	for _, st := range steps {
 		if st.err != nil {
@@ -507,6 +603,9 @@ func (r *runner) flowReport(fl *Flow, res *flowResult, name string) {
 		var bad liberrors.ErrClientBadStatusCode
 		if errors.As(failed.err, &bad) && bad.Code == base.StatusUnauthorized {
 			key = "auth-flow-credentials-lost-" + fl.Scenario
+			if fl.FirstAuth != "" {
+				key += "-challenge-at-" + strings.ToLower(fl.FirstAuth)
+			}
 		}
 		r.viol("right credentials in the URL: every step of the session succeeds, also on a connection the client opened by itself (protocol switch, redirect)",
 			key, in, detail)
@@ -514,6 +613,10 @@ func (r *runner) flowReport(fl *Flow, res *flowResult, name string) {
 	}
 	// every connection that was challenged answered the challenge: at most one 401 per connection,
 	// and at least one authenticated request after it
+	if fl.FirstAuth != "" && len(per401) == 0 {
+		r.viol("the scenario makes the server challenge at "+fl.FirstAuth, "auth-flow-harness-"+fl.Scenario, in, "no challenge was issued; "+detail)
+		return
+	}
 	for key, n := range per401 {
 		if n > 1 || perOK[key] == 0 {
 			r.viol("each new connection is challenged once and the client answers with the right credentials",
@@ -523,7 +626,11 @@ func (r *runner) flowReport(fl *Flow, res *flowResult, name string) {
 	}
 	switch fl.Scenario {
 	case "udp-timeout-switch", "tcp-in-setup-answer":
-		if switched == 0 || len(per401) < 2 {
+		want := 2
+		if fl.Scenario == "tcp-in-setup-answer" && fl.FirstAuth == "PLAY" {
+			want = 1 // the first connection ends before PLAY
+		}
+		if switched == 0 || len(per401) < want {
 			r.viol("the scenario forces a second connection that is challenged again", "auth-flow-harness-"+fl.Scenario, in,
 				fmt.Sprintf("switches %d, challenged connections %d; %s", switched, len(per401), detail))
 		} else {
@@ -563,6 +670,52 @@ func (r *runner) flows(g *gen) {
 	lists := [][]int{{0}, {1}, {2}}
 	if !c.Quick() {
 		lists = append(lists, nil, []int{0, 1, 2}, []int{2, 1}, []int{1, 0})
+	}
+	// where the first challenge happens x how the base URL of SETUP is derived x media control
+	bases := []string{"cb-abs-slash", "cb-abs-noslash", "cb-rel", "cb-none", "sess-abs", "sess-star"}
+	controls := []string{"rel", "abs", "none"}
+	k := int(c.Seed)
+	for _, fa := range []string{"OPTIONS", "DESCRIBE", "SETUP", "PLAY", "PAUSE"} {
+		for _, b := range bases {
+			for _, mc := range controls {
+				for si, ms := range lists {
+					if c.Quick() && si != k%len(lists) {
+						continue // quick: the scheme rotates over the combinations
+					}
+					sc := "tcp"
+					if fa == "PAUSE" {
+						sc = "pause-replay"
+					}
+					fl := g.flow(sc, ms)
+					fl.FirstAuth, fl.Base, fl.MediaControl = fa, b, mc
+					cases = append(cases, fl)
+				}
+				k++
+			}
+		}
+	}
+	// a new connection made by the client itself, challenged only from SETUP / PLAY on
+	for _, sc := range []string{"udp-timeout-switch", "tcp-in-setup-answer"} {
+		for _, fa := range []string{"SETUP", "PLAY"} {
+			for _, b := range []string{"cb-rel", "cb-none", "sess-abs"} {
+				if c.Quick() && (k+len(cases))%3 != 0 {
+					k++
+					continue
+				}
+				fl := g.flow(sc, lists[k%len(lists)])
+				fl.FirstAuth, fl.Base = fa, b
+				cases = append(cases, fl)
+				k++
+			}
+		}
+	}
+	// record
+	for _, fa := range []string{"", "OPTIONS", "ANNOUNCE", "SETUP", "RECORD"} {
+		for _, ms := range lists {
+			fl := g.flow("record", ms)
+			fl.FirstAuth = fa
+			cases = append(cases, fl)
+		}
 	}
 	reps := c.N(1, 4)
 	for rep := 0; rep < reps; rep++ {
